@@ -436,3 +436,40 @@ static std::string fromhex(const std::string &s)
 SXOP(dumps) { return Val::S(tohex(c.B(e, 1)->dumps())); }
 SXOP(loads) { return Val::B(Basic::loads(fromhex(c.S(e, 1)))); }
 SXOP(roundtrip) { return Val::B(Basic::loads(c.B(e, 1)->dumps())); }
+
+// (eq_all v): compares element 0 with every element: eq both directions, same str, same hash
+SXOP(eq_all)
+{
+    vec_basic v = c.VEC(e, 1);
+    std::string o = "{\"eq\":[", s = "\"str\":[", h = "\"hash\":[";
+    for (size_t i = 0; i < v.size(); i++) {
+        if (i) { o += ","; s += ","; h += ","; }
+        bool q = eq(*v[0], *v[i]) and eq(*v[i], *v[0]);
+        o += q ? "1" : "0";
+        s += (v[0]->__str__() == v[i]->__str__()) ? "1" : "0";
+        h += (v[0]->hash() == v[i]->hash()) ? "1" : "0";
+    }
+    return Val::J(o + "]," + s + "]," + h + "]}");
+}
+// (eq_all_regs r0 r1 ...): like eq_all on the bound registers; reports which were bound
+SXOP(eq_all_regs)
+{
+    vec_basic v;
+    std::string idx;
+    for (size_t i = 1; i < e.n(); i++) {
+        auto it = c.regs.find(e.l[i].a);
+        if (it == c.regs.end() or it->second.k != Val::BASIC) continue;
+        if (not idx.empty()) idx += ",";
+        idx += std::to_string(i - 1);
+        v.push_back(it->second.b);
+    }
+    std::string o = "{\"idx\":[" + idx + "],\"eq\":[", s = "\"str\":[", h = "\"hash\":[";
+    for (size_t i = 0; i < v.size(); i++) {
+        if (i) { o += ","; s += ","; h += ","; }
+        bool q = eq(*v[0], *v[i]) and eq(*v[i], *v[0]);
+        o += q ? "1" : "0";
+        s += (v[0]->__str__() == v[i]->__str__()) ? "1" : "0";
+        h += (v[0]->hash() == v[i]->hash()) ? "1" : "0";
+    }
+    return Val::J(o + "]," + s + "]," + h + "]}");
+}
